@@ -1080,7 +1080,10 @@ func (w *c40World) prepare(maxGrow int) ([]*c40Blk, string) {
 	rt := w.rt
 	n := len(w.canon)
 	kind := rapid.IntRange(0, 9).Draw(rt, "chainOp")
-	if kind >= 8 && (len(w.saved) == 0 || w.noBranchSwitch || w.frozen) {
+	// Switching back to a remembered branch is not generated in this unit (lead's decision after an
+	// unexplained, non-reproducible wrong answer right after such a switch, see notes/C40.md "Open
+	// observation"): the draw is kept (replays stay valid) and mapped to a reorg.
+	if kind >= 8 {
 		kind = 3
 	}
 	if kind >= 3 && kind <= 6 && n < 8 {
